@@ -54,7 +54,9 @@ TEXTS = {
                     'id filter) are actions of the specification; MC_Snap checks that the restored collection equals the primary block by '
                     'block. Histories with up to 3 snapshot -> restore -> continue cycles over all kinds, indexes, sorted index, keys, '
                     '0-3 blocks and all capacities are validated: every block-commit of the restoring collection (seen by its logger) '
-                    'must be the image the specification computed, the restored collection is dumped and the history continues on it.',
+                    'must be the image the specification computed, the restored collection is dumped and the history continues on it. Timed scenarios '
+                    '(exp/c07, ExpireTrace.tla): rows with a time-to-live are restored while the real vacuum runs; the restored collection must '
+                    'drop each of them after the deadline it inherited and keep the others.',
             'note': _NOTE, 'technique': _T},
     'C08': {'text': 'ConsistentCut (each restored block equals the primary block after a prefix of the commits applied to it, between '
                     'those applied when the snapshot began and when it returned) is model-checked for 2 writers beside a snapshot at '
@@ -66,7 +68,8 @@ TEXTS = {
     'C09': {'text': 'Merges are applied inside Apply (one action under the block latch); ReadBack against the per-row fold in apply '
                     'order is model-checked for 2 concurrent writers; controlled schedules of 2-4 writers merging (additive and '
                     'order-sensitive affine merge, string concat, all numeric types, records) into overlapping rows are validated: '
-                    'every in-latch logger event must carry the absolute value the specification computes from the apply order. A second family (par/c09) '
+                    'every in-latch logger event must carry the absolute value the specification computes from the apply order; some transactions give up '
+                    '(their merges are applied by nobody). A second family (par/c09) '
                     'runs 4-6 goroutines in real parallelism (no scheduler; user merge functions that take tens of microseconds) merging numbers, records and '
                     'strings into rows of 2-3 blocks: commits into different blocks overlap inside Apply; the in-latch logger gives the apply order per block.',
             'note': _NOTE, 'technique': _T},
@@ -98,7 +101,8 @@ TEXTS = {
                     'primary are cut at every s2 frame boundary +-2 and a random sample (quick) / every byte (thorough); each prefix is '
                     'restored / ranged over into a fresh collection under a watchdog; panics and hangs are events no action explains. Two-block '
                     'snapshots of several MB (blocks of 1.2 and of 2.7 MB, so that a compression frame ends exactly on a block end) are cut at every '
-                    'frame boundary +-2 and the applied blocks / commits are bound by PrefixTrace.tla.',
+                    'frame boundary +-2 and the applied blocks / commits are bound by PrefixTrace.tla (the intact file must restore to the block images '
+                    'followed by exactly the commits the source made meanwhile, one item per commit - digested on the source side as well).',
             'note': _NOTE + ' The exhaustive part covers the untruncated protocol (MC_Snap); truncation points are enumerated on the real bytes.',
             'technique': _T + '; fault enumeration over byte offsets'},
     'C14': {'text': 'SnapFail (from any point of the snapshot protocol) must leave the recorder detached (RecorderClean, model-checked with '
